@@ -44,6 +44,11 @@ pub enum Terminal {
     /// observation follows when both drops have returned (file output; the scenario is repeated
     /// with fresh loggers, because only few schedules let the two drops overlap)
     DropLastTwo,
+    /// a second thread (source 2) logs continuously WHILE shutdown() runs; every record whose log
+    /// call had returned before shutdown() was CALLED must be there when shutdown() has returned
+    /// (records that complete during the call are not asserted: the property's "completed before"
+    /// is read in the way that demands least)
+    ShutdownWhileLogging,
 }
 
 #[derive(Clone, Debug, Serialize, Deserialize)]
@@ -98,12 +103,24 @@ struct Run {
     clone_drop_before_write: bool,
     pending_bytes: usize,
     flush_failure: Option<String>,
+    /// ShutdownWhileLogging: number of records of source 2 acknowledged before shutdown() was called
+    acked_before: Option<u32>,
+    /// ShutdownWhileLogging: the second thread, still logging while the observation is made
+    bg: Option<(std::sync::Arc<std::sync::atomic::AtomicBool>, std::thread::JoinHandle<()>)>,
+}
+impl Run {
+    fn stop_bg(&mut self) {
+        if let Some((s, j)) = self.bg.take() {
+            s.store(true, std::sync::atomic::Ordering::SeqCst);
+            let _ = j.join();
+        }
+    }
 }
 
 /// executes the ops and the terminal call; `observe` is called right after the terminal call
 /// returned, while the (dropped or shut down) logger objects may still be alive
 fn drive(case: &Case, log: Box<dyn log::Log>, handle: flexi_logger::LoggerHandle, after_flush: &mut dyn FnMut(&[String]) -> Result<(), String>) -> Run {
-    drive_x(case, log, handle, after_flush, false)
+    drive_x(case, log, handle, after_flush, None)
 }
 
 /// size of the burst before a double shutdown (small where every record may rotate a file)
@@ -115,9 +132,16 @@ fn burst(case: &Case) -> u32 {
     }
 }
 
-/// `exit_after`: (child process) the thread whose terminal call returns first ends the process
-fn drive_x(case: &Case, log: Box<dyn log::Log>, handle: flexi_logger::LoggerHandle, after_flush: &mut dyn FnMut(&[String]) -> Result<(), String>, exit_after: bool) -> Run {
-    let mut run = Run { expected: Vec::new(), clone_drop_before_write: false, pending_bytes: 0, flush_failure: None };
+fn ack_file(case_file: &Path) -> std::path::PathBuf {
+    let mut s = case_file.as_os_str().to_owned();
+    s.push(".ack");
+    s.into()
+}
+
+/// `exit_file` (the case file): (child process) the thread whose terminal call returns first ends the process
+fn drive_x(case: &Case, log: Box<dyn log::Log>, handle: flexi_logger::LoggerHandle, after_flush: &mut dyn FnMut(&[String]) -> Result<(), String>, exit_file: Option<&Path>) -> Run {
+    let exit_after = exit_file.is_some();
+    let mut run = Run { expected: Vec::new(), clone_drop_before_write: false, pending_bytes: 0, flush_failure: None, acked_before: None, bg: None };
     let mut q = 0u32;
     let mut clone_dropped = false;
     let log: std::sync::Arc<dyn log::Log> = std::sync::Arc::from(log);
@@ -217,6 +241,40 @@ fn drive_x(case: &Case, log: Box<dyn log::Log>, handle: flexi_logger::LoggerHand
             let _ = rx.recv();
             std::mem::forget(log);
         }
+        Terminal::ShutdownWhileLogging => {
+            use std::sync::atomic::{AtomicBool, AtomicU32, Ordering};
+            let acked = std::sync::Arc::new(AtomicU32::new(0));
+            let stop2 = std::sync::Arc::new(AtomicBool::new(false));
+            let (l2, a2, s2) = (log.clone(), acked.clone(), stop2.clone());
+            // bounded: with a rotating family every record may rotate (and list the directory); in
+            // async mode an unbounded producer would leave shutdown() a backlog of minutes
+            let max = if case.cfg.rot.is_some() && case.out == Out::File { 150u32 } else { 50_000 };
+            let j = std::thread::spawn(move || {
+                let mut i = 0u32;
+                while !s2.load(Ordering::SeqCst) && i < max {
+                    let p = payload(2, i, 20);
+                    l2.log(&log::Record::builder().args(format_args!("{p}")).level(log::Level::Info).target("flv").module_path(Some("flv")).build());
+                    i += 1;
+                    a2.store(i, Ordering::SeqCst);
+                }
+            });
+            // let it get going (bounded wait; a slow start only makes the case less interesting)
+            let t0 = std::time::Instant::now();
+            while acked.load(Ordering::SeqCst) < 30 && t0.elapsed() < Duration::from_millis(500) {
+                std::thread::yield_now();
+            }
+            let n0 = acked.load(Ordering::SeqCst);
+            handle.shutdown();
+            if exit_after {
+                // child: the parent learns n0 from the side file; then end at once
+                let _ = std::fs::write(ack_file(exit_file.unwrap()), n0.to_string());
+                unsafe { libc::_exit(0) }
+            }
+            run.acked_before = Some(n0);
+            run.bg = Some((stop2, j));
+            std::mem::forget(handle);
+            std::mem::forget(log);
+        }
         Terminal::ShutdownTwice => {
             // a backlog for the writer thread / the buffer
             for _ in 0..burst(case) {
@@ -260,7 +318,7 @@ pub fn child_main(file: &Path) -> ! {
             unsafe { libc::_exit(7) }
         }
     };
-    let _ = drive_x(&case, log, handle, &mut |_| Ok(()), true);
+    let _ = drive_x(&case, log, handle, &mut |_| Ok(()), Some(file));
     // no flush of Rust's own stdout buffer, no destructors
     unsafe { libc::_exit(0) }
 }
@@ -297,7 +355,7 @@ impl Property for P {
             prop_oneof![6 => Just(Out::File), 3 => Just(Out::Writer), 1 => Just(Out::Stdout), 1 => Just(Out::Stderr)],
             mode,
             prop::option::weighted(0.5, (prop_oneof![Just(30u64), Just(200u64), 10u64..400], naming_strat())),
-            prop_oneof![3 => Just(Terminal::Shutdown), 3 => Just(Terminal::DropLastHandle), 2 => Just(Terminal::Flush), 1 => Just(Terminal::ShutdownTwice), 1 => Just(Terminal::DropLastTwo)],
+            prop_oneof![3 => Just(Terminal::Shutdown), 3 => Just(Terminal::DropLastHandle), 2 => Just(Terminal::Flush), 1 => Just(Terminal::ShutdownTwice), 1 => Just(Terminal::DropLastTwo), 1 => Just(Terminal::ShutdownWhileLogging)],
             suffix_strat(),
             prop::bool::weighted(0.3),
             if cfg!(feature = "watcher") { prop::bool::weighted(0.04).boxed() } else { Just(false).boxed() },
@@ -369,6 +427,36 @@ impl Property for P {
             } else {
                 got
             };
+            // ShutdownWhileLogging: the records of source 2 acknowledged before the call form a prefix of
+            // that source's lines; they are taken out of the comparison of source 0
+            let got: Vec<u8> = if let Some(n0) = run.acked_before {
+                let theirs: Vec<&[u8]> = got.split_inclusive(|b| *b == b'\n').filter(|l| l.starts_with(b"2:")).collect();
+                out.class(if n0 > 0 { "second-thread-logging-during-shutdown" } else { "second-thread-not-started" });
+                for i in 0..n0 {
+                    let mut want = payload(2, i, 20).into_bytes();
+                    want.push(b'\n');
+                    if theirs.get(i as usize).copied() != Some(&want[..]) {
+                        out.set_fail(
+                            "records-missing-after-shutdown-while-logging",
+                            format!(
+                                "{:?}, {:?}: the second thread had {} log calls returned before shutdown() was called; right after shutdown() returned the output holds {} of its lines, line {} is {:?}",
+                                case.out,
+                                case.cfg.mode,
+                                n0,
+                                theirs.len(),
+                                i,
+                                theirs.get(i as usize).map(|l| lossy(l))
+                            ),
+                        );
+                        break;
+                    }
+                }
+                // (a last fragment without line ending is the second thread's record being written
+                // while the file is read)
+                got.split_inclusive(|b| *b == b'\n').filter(|l| !l.starts_with(b"2:") && !(l.starts_with(b"2") && !l.ends_with(b"\n"))).flatten().copied().collect()
+            } else {
+                got
+            };
             if let Some(e) = &run.flush_failure {
                 out.set_fail("records-missing-after-flush", e.clone());
             }
@@ -386,7 +474,7 @@ impl Property for P {
             if run.pending_bytes > 0 && buffering {
                 out.class("buffered-at-terminal-call");
             }
-            if (run.pending_bytes > 0 && buffering) || run.clone_drop_before_write {
+            if (run.pending_bytes > 0 && buffering) || run.clone_drop_before_write || run.acked_before.is_some_and(|n| n > 0) {
                 out.nontrivial = true;
             }
         };
@@ -418,7 +506,7 @@ impl Property for P {
                 }
                 let cfg = case.cfg.clone();
                 let dir2 = dir.clone();
-                let run = drive(case, log, handle, &mut |expected_so_far: &[String]| {
+                let mut run = drive(case, log, handle, &mut |expected_so_far: &[String]| {
                     // right after flush() returned: every record of this thread is in the files
                     let snap = snapshot(&dir2);
                     let fam = family(&cfg, &snap)?;
@@ -434,8 +522,14 @@ impl Property for P {
                     }
                     Ok(())
                 });
-                // immediately: no sleep between the terminal call and the observation
+                // immediately: no sleep between the terminal call and the observation (a second thread
+                // that is still logging is stopped first if the family rotates: a snapshot of a
+                // rotating family is no atomic observation)
+                if case.cfg.rot.is_some() {
+                    run.stop_bg();
+                }
                 let snap = snapshot(&dir);
+                run.stop_bg();
                 let fam = match family(&case.cfg, &snap) {
                     Ok(f) => f,
                     Err(e) => return Outcome::fail("family-illformed", e),
@@ -452,12 +546,13 @@ impl Property for P {
                     Ok(x) => x,
                     Err(e) => return Outcome::fail("build-failed", format!("{e:?}")),
                 };
-                let run = drive(case, log, handle, &mut |_| Ok(()));
+                let mut run = drive(case, log, handle, &mut |_| Ok(()));
                 let got: Vec<u8> = committed.lock().unwrap().iter().flat_map(|s| {
                     let mut b = s.clone().into_bytes();
                     b.push(b'\n');
                     b
                 }).collect();
+                run.stop_bg();
                 finish(&mut out, &run, got);
             }
             Out::Stdout | Out::Stderr => {
@@ -469,7 +564,7 @@ impl Property for P {
                     return Outcome::fail("child-failed", format!("exit {:?} signal {:?} timed_out {}: {}", co.code, co.signal, co.timed_out, lossy(&co.stderr)));
                 }
                 // expected: recompute from the ops
-                let mut run = Run { expected: Vec::new(), clone_drop_before_write: false, pending_bytes: 0, flush_failure: None };
+                let mut run = Run { expected: Vec::new(), clone_drop_before_write: false, pending_bytes: 0, flush_failure: None, acked_before: None, bg: None };
                 let mut q = 0;
                 let mut cd = false;
                 for op in &case.ops {
@@ -496,6 +591,12 @@ impl Property for P {
                         run.expected.push(payload(0, q, 60));
                         q += 1;
                         run.pending_bytes += 61;
+                    }
+                }
+                if case.terminal == Terminal::ShutdownWhileLogging {
+                    match std::fs::read_to_string(ack_file(&cf)).ok().and_then(|s| s.trim().parse::<u32>().ok()) {
+                        Some(n0) => run.acked_before = Some(n0),
+                        None => return Outcome::fail("child-failed", "no acknowledgement file from the child".to_string()),
                     }
                 }
                 let got = if case.out == Out::Stdout { co.stdout } else { co.stderr };
